@@ -12,6 +12,7 @@
 From Coq Require Import ZArith List Bool.
 From QF Require Import Base.Res Base.Bytes Codec.TagValue Codec.TagValueProofs Codec.FieldMap Codec.Build Codec.Parse
   Codec.ParseProofs Codec.Scan Codec.ScanProofs.
+From QF Require Import Spec.FixStd Codec.Group Codec.GroupProofs Codec.GroupShipped Codec.GroupMulti Codec.ParseGroupProofs.
 Import ListNotations.
 Open Scope Z_scope.
 
@@ -21,10 +22,13 @@ Open Scope Z_scope.
    message is declared as a NumInGroup field (a field with members) by the dictionary, for any MsgType - in particular
    for ad = None (c11_fidelity_no_app_dictionary) and for dictionaries none of whose message definitions has a group on
    a tag of the message (c11_no_group_start_sufficient).
-   MISSING CASE, precisely: messages in which a repeating group of the application dictionary actually starts
-   (parseGroup runs).  There the field array and raw bytes are still covered by the correspondence stream `parse` and
-   by c11_parse_total, and group extents by area `groups` (C13); a proof over this model would need the
-   characterisation of pg_loop (which fields are gathered under the group's tag). *)
+   The case in which a repeating group of the application dictionary actually starts (parseGroup runs) is proved in
+   Codec/ParseGroupProofs.v and stated in Props/C13.v (it needs the C13 machinery): c11_parse_refines_scan (pg_loop /
+   dp_loop against the field-level scan rg_scan, every run) and c11_fidelity_groups (messages whose groups are
+   well-formed for the dictionary: plain fields retrievable, raw bytes unchanged, groups retrievable via rg_read).
+   STILL MISSING: messages in which a group of the dictionary starts but is NOT well-formed for it (count mismatch,
+   members out of order, ...) - there only c11_parse_refines_scan applies (Body = the scan's Body.add calls) - and
+   dictionaries that list a header / trailer tag as a group member. *)
 Theorem c11_fidelity_partial : forall fs td ad, c11_wire_ok fs = true -> ad_no_group_start ad fs ->
   exists m, do_parsing (ser fs) td ad = Ok m /\                                (* accepted *)
     m_raw m = Some (ser fs) /\                                                 (* raw bytes unchanged *)
@@ -66,3 +70,66 @@ Proof. exact scan_ser. Qed.
 (* non-vacuity: XMLData with an embedded SOH, a '='-containing high-byte value, a repeated tag *)
 Example c11_hypothesis_satisfiable : c11_wire_ok c11_example_fields = true.
 Proof. exact c11_example_wire_ok. Qed.
+
+(* ---- C11 for messages in which repeating groups of the application dictionary DO start (parseGroup runs) ---- *)
+
+(* The byte-level parser model (Codec/Parse.v: doParsing / parseGroup) against the field-level scan used above
+   (Codec/Group.v: rg_scan), for EVERY well-formed wire message of a MsgType the dictionary knows - no assumption on the
+   groups in it: accepted, raw bytes and field array unchanged, Header / Trailer = the header / trailer fields, and the
+   Body is exactly the Body.add calls (tag, offset, length) of the scan, each adding the window fields[off : off+len].
+   Needed: the group member lists of the message definition hold no header / trailer tag (dict_body_only; checkable:
+   c11_dict_body_only_check), MsgType occurs once. *)
+Theorem c11_parse_refines_scan : forall fs td d mt defs v8 v9 mid res,
+  c11_wire_ok fs = true -> fs = (8, v8) :: (9, v9) :: (35, mt) :: mid -> ~ In TAG_MSG_TYPE (map fst mid) ->
+  ad_find mt d = Some defs -> dict_body_only td defs ->
+  rg_scan (td_xh td) (td_xt td) (Some (map gdef_rg defs)) RgTop 3%nat mid [] = Ok res ->
+  exists m, do_parsing (ser fs) td (Some d) = Ok m /\
+    m_raw m = Some (ser fs) /\
+    m_fields m = map init_of fs ++ repeat tv_zero (count_byte SOH (ser fs) - length fs) /\
+    m_header m = fold_left (addH td) fs hdr0 /\
+    m_trailer m = fold_left (addT td) fs trl0 /\
+    m_body m = body_of fs res.
+Proof. exact parse_refines_scan. Qed.
+
+Theorem c11_dict_body_only_check : forall td defs, dict_body_onlyb td defs = true -> dict_body_only td defs.
+Proof. exact dict_body_onlyb_sound. Qed.
+
+(* FIDELITY WITH GROUPS.  The message is 8, 9, 35 and a list of items - plain fields (header, trailer, or body fields that
+   start no group) and repeating groups, in any order, groups back to back included - ending with CheckSum; every group
+   satisfies the C13 hypotheses for the dictionary (c11g_ok).  Then: accepted; raw bytes unchanged; field array = the wire
+   fields in order; every field outside the groups is retrievable from its section with its wire value (last occurrence
+   wins); every group is stored in the Body under its tag as the window of its wire fields, and RepeatingGroup.Read on
+   that window (capacity to the end of the field array) returns the group. *)
+Theorem c11_fidelity_groups : forall td d mt defs v8 v9 v10 items fs,
+  fs = (8, v8) :: (9, v9) :: (35, mt) :: c11g_flat (items ++ [CFld (10, v10)]) ->
+  c11_wire_ok fs = true ->
+  ~ In TAG_MSG_TYPE (map fst (c11g_flat items)) ->
+  ad_find mt d = Some defs -> dict_body_only td defs ->
+  c11g_ok td defs (items ++ [CFld (10, v10)]) ->
+  exists m, do_parsing (ser fs) td (Some d) = Ok m /\
+    m_raw m = Some (ser fs) /\
+    m_fields m = map init_of fs ++ repeat tv_zero (count_byte SOH (ser fs) - length fs) /\
+    (forall t v, c11_last_value ((8, v8) :: (9, v9) :: (35, mt) :: c11g_flds (items ++ [CFld (10, v10)])) t = Some v ->
+       fm_get_bytes (parsed_section td t m) t = Ok v) /\
+    (forall before t T g after, items = before ++ CGrp t T g :: after ->
+       let off := (3 + length (c11g_flat before))%nat in
+       exists f, lk_get (fm_lookup (m_body m)) t = Some f /\
+         field_tvs f = firstn (length (rg_write T t g)) (skipn off (m_fields m)) /\
+         map tv_pair (field_tvs f) = rg_write T t g /\
+         rmap fst (rg_read T (map tv_pair (skipn off (m_fields m)))) = Ok (rg_canon T g)).
+Proof. exact parse_fidelity_groups. Qed.
+
+(* non-vacuity: 49, 11, NoAllocs(78) directly followed by NoPartyIDs(453), 58; BodyLength computed *)
+Example c11_ex_groups_hyps :
+  c11_wire_ok (c11g_ex_fs c11g_ex_v9) = true /\
+  ~ In TAG_MSG_TYPE (map fst (c11g_flat c11g_ex_items)) /\
+  ad_find [68] c11g_ex_dict = Some c11g_ex_defs /\ dict_body_only None c11g_ex_defs /\
+  c11g_ok None c11g_ex_defs (c11g_ex_items ++ [CFld (10, [48; 48; 48])]).
+Proof. exact c11g_ex_hyps. Qed.
+Example c11_ex_groups_parse :
+  exists m, do_parsing (ser (c11g_ex_fs c11g_ex_v9)) None (Some c11g_ex_dict) = Ok m /\
+    fm_get_bytes (m_body m) 58 = Ok [116] /\ fm_get_bytes (m_header m) 49 = Ok [83] /\
+    (exists f, lk_get (fm_lookup (m_body m)) 453 = Some f /\ map tv_pair (field_tvs f) = rg_write rg_ex2_tmpl 453 rg_ex2_group) /\
+    rmap fst (rg_read rg_ex2_tmpl (map tv_pair (skipn 16 (m_fields m)))) = Ok rg_ex2_group /\
+    rmap fst (rg_read rg_ex_tmpl (map tv_pair (skipn 5 (m_fields m)))) = Ok rg_ex_group.
+Proof. exact c11g_ex_parse. Qed.
